@@ -251,6 +251,48 @@ def o193(ctx):
         okd = len(rec) == 1 and len(nxt) == 1 and block_of(m, rec[0]) is block_of(m, nxt[0])
     if not okd:
         ctx.finding(q, c, "the distance recorded for the former particle must be the one returned together with the chosen next particle", c, m)
+    # (f) connection of a finished chain to existing ones: the chain's *first* particle (entry site) is looked up among the exit sites,
+    #     the chain's *last* particle (exit site) among the entry sites
+    back = [c_ for c_ in calls if isinstance(c_.args[-1], ast.Constant) and c_.args[-1].value is False]
+    exit_tree = [k for k, v in trees.items() if "exit" in src(v.value.args[0])]
+    ctx.count(1, {"connection searches": [src(b_)[:80] for b_ in back]})
+    heads = [b_ for b_ in back if src(b_.args[0]) in exit_tree]
+    tails = [b_ for b_ in back if src(b_.args[0]) in entry_tree]
+    if len(heads) != 1 or len(tails) != 1:
+        raise Unsupported("connection searches (one per tree, last argument False) not recognised", fl)
+    hp = src(heads[0].args[1])
+    hdefs = [n for n in ast.walk(fl) if isinstance(n, ast.Assign) and src(n.targets[0]) == hp]
+
+    def refers_first(n_):
+        """row 0 of the chain table (<chain>.index[0] / .iloc[0]) or element 0 of the list of used indices"""
+        for x in ast.walk(n_):
+            if isinstance(x, ast.Subscript) and isinstance(x.slice, ast.Constant) and x.slice.value == 0:
+                return True
+        return False
+
+    roots = set()
+    todo = list(hdefs)
+    seen_ = set()
+    while todo:
+        d_ = todo.pop()
+        if id(d_) in seen_:
+            continue
+        seen_.add(id(d_))
+        roots.add(d_)
+        for x in ast.walk(d_.value):
+            if isinstance(x, ast.Name) and x.id == hp:
+                continue
+    ctx.count(1)
+    uses_current = any(isinstance(x, ast.Name) and x.id == idx_name for d_ in hdefs for x in ast.walk(d_.value))
+    first_ok = any(refers_first(d_.value) for d_ in hdefs)
+    if not hdefs or uses_current or not first_ok:
+        ctx.finding(q, heads[0], "the search for a chain to append to must start from the entry site of the finished chain's FIRST particle (row 0 of "
+                    f"the chain table); here the point is defined from {'the current (last) particle ' + idx_name if uses_current else 'something else'}",
+                    heads[0], m, definition=[src(d_)[:100] for d_ in hdefs])
+    ctx.count(1)
+    if src(tails[0].args[1]) != pt_arg:
+        ctx.finding(q, tails[0], "the search for a chain to put in front of must start from the exit site of the finished chain's LAST particle "
+                    "(the point used by the forward search)", tails[0], m)
 
 
 def _obligations():
@@ -262,4 +304,4 @@ def _obligations():
 
 
 def obligations():
-    return _obligations() + [labels_obligation("C19"), effects_obligation("C19")]
+    return _obligations() + [labels_obligation("C19"), selectors_obligation("C19"), effects_obligation("C19")]
